@@ -386,7 +386,7 @@ def pCreateTable (d : Gen.D) (f : Nat) (ts : List Tok) : R Stmt :=
     | .ok (tbl, r1) =>
       if searchStrUp r1 "AS" then
         (match pSelectStmt d f none (r1.drop 1) with
-         | .ok (q, r2) => .ok (.createTableAs tbl q, r2) | .error e => .error e)
+         | .ok (q, r2) => .ok (.createTableAs tbl (moveThreeUp r0 "IF" "NOT" "EXISTS").1 q, r2) | .error e => .error e)
       else match popSplit r1 with
         | .error e => .error e
         | .ok (segs, r2) => match createElems d f segs (emptyCreate tbl (moveThreeUp r0 "IF" "NOT" "EXISTS").1) with
